@@ -141,7 +141,6 @@ theorem metaViewOf_expect (m : Meta) : metaViewOf (expectMeta m) = metaView m :=
 theorem expect_flagStrings (i : Nat) (p : Page) :
     (expectPage i p).flagStrings = flagStrings (code p.op.am) p.op.flags := by
   cases hp : p.op <;> simp [expectPage, hp, Opaque.am, Opaque.flags, code]
-  rfl
 
 /-- every (mask, name) the tool knows is a single bit, and the name is PostgreSQL's name of that bit
 (modulo the per-method macro prefix and the `_PAGE` suffix of the hash page types) -/
@@ -149,23 +148,52 @@ theorem names_table_sound : ∀ am ∈ AM.all, ∀ e ∈ flagTable (code am),
     ∃ k ∈ List.range 16, e.1 = 2 ^ k ∧ shortFlagName am k = some e.2 := by
   decide
 
+/-- … and conversely every bit PostgreSQL defines for a method (`Spec.Index.pgFlagNames`) has its entry in the tool's
+table (fix 08): the table is complete with respect to PostgreSQL's, not only sound -/
+theorem names_table_complete : ∀ am ∈ AM.all, ∀ e ∈ pgFlagNames am,
+    (2 ^ e.1, shortName am e.2) ∈ flagTable (code am) := by
+  decide
+
 theorem am_mem_all (am : AM) : am ∈ AM.all := by cases am <;> simp [AM.all]
 
-/-- the names reported for a flag word are right, and complete for the bits the tool has a name for -/
+theorem lookup_mem {α β} [BEq α] [LawfulBEq α] (l : List (α × β)) (k : α) (v : β) (h : l.lookup k = some v) :
+    (k, v) ∈ l := by
+  induction l with
+  | nil => simp [List.lookup] at h
+  | cons x xs ih =>
+    obtain ⟨a, b⟩ := x
+    by_cases hk : k == a
+    · have e : k = a := by simpa using hk
+      simp only [List.lookup, hk] at h
+      cases h
+      rw [e]; simp
+    · simp only [List.lookup, hk] at h
+      exact List.mem_cons_of_mem _ (ih h)
+
+/-- The names reported for a flag word are exactly PostgreSQL's names of the set bits that PostgreSQL defines for the
+method: a name is in the list iff it is the (short) name of a set, defined bit.  Nothing about the tool's own table
+is mentioned: `shortFlagName` is the Spec's table `pgFlagNames`. -/
 def NamesOK (am : AM) (flags : Nat) (names : List String) : Prop :=
-  (∀ name ∈ names, ∃ k, flags.testBit k = true ∧ shortFlagName am k = some name) ∧
-  (∀ k name, (2 ^ k, name) ∈ flagTable (code am) → flags.testBit k = true → name ∈ names)
+  ∀ name, name ∈ names ↔ ∃ k, flags.testBit k = true ∧ shortFlagName am k = some name
 
 theorem flagStrings_ok (am : AM) (flags : Nat) : NamesOK am flags (flagStrings (code am) flags) := by
+  intro name
   constructor
-  · intro name hn
+  · intro hn
     simp only [flagStrings, List.mem_map, List.mem_filter] at hn
     obtain ⟨e, ⟨he, hb⟩, rfl⟩ := hn
     obtain ⟨k, _, hk, hs⟩ := names_table_sound am (am_mem_all am) e he
     rw [hk, land_pow_ne_zero] at hb
     exact ⟨k, hb, hs⟩
-  · intro k name he hb
-    simp only [flagStrings, List.mem_map, List.mem_filter]
-    exact ⟨(2 ^ k, name), ⟨he, by rw [land_pow_ne_zero]; exact hb⟩, rfl⟩
+  · rintro ⟨k, hb, hs⟩
+    unfold shortFlagName at hs
+    cases hl : (pgFlagNames am).lookup k with
+    | none => rw [hl] at hs; cases hs
+    | some n =>
+      rw [hl] at hs
+      have hname : shortName am n = name := by simpa using hs
+      have hmem := names_table_complete am (am_mem_all am) (k, n) (lookup_mem _ _ _ hl)
+      simp only [flagStrings, List.mem_map, List.mem_filter]
+      exact ⟨(2 ^ k, shortName am n), ⟨hmem, by rw [land_pow_ne_zero]; exact hb⟩, hname⟩
 
 end PgVerif.Proofs.Index
